@@ -91,7 +91,7 @@ static std::string item_json(const Item &it) {
 }
 static std::string seq_json(const Seq &q, size_t maxitems = 40) {
 	std::string s = "["; size_t n = 0;
-	for (auto &it : q) { if (n) s += ","; if (n++ >= maxitems) { s += "\"...\""; break; } std::string j = item_json(it); s += j.size() > 400 ? ("\"" + shorten(j, 120) + "\"") : j; }
+	for (auto &it : q) { if (n) s += ","; if (n++ >= maxitems) { s += "\"...\""; break; } std::string j = item_json(it); s += j.size() > 400 ? ("\"" + jesc(shorten(j, 120)) + "\"") : j; }
 	return s + "]";
 }
 
